@@ -917,7 +917,8 @@ impl<'a> State<'a> {
                     }
                     let (what, p) = match kind {
                         Corruption::Truncate => {
-                            let k = pick(*pos, n);
+                            // half of the cuts drop the last element only
+                            let k = if *pos & 1 == 1 { n - 1 } else { pick(*pos, n) };
                             a.truncate(k);
                             (format!("JSON array cut to {} of {} elements", k, n), k)
                         }
